@@ -64,20 +64,26 @@ class KeyContract(Contract):
         return [("raises", KR(c.pre, c.self, c.item)), ("class", cls_clause)]
 
 
+def cls_lookup(eng, st, v, sid):
+    """the class-level part of an attribute read (as the engine models it): on a class value the class's own attribute"""
+    from pyvc.symex import clsattr
+    return z3.If(is_cls(v), clsattr(c_of(v), sid), clsattr(eng.type_of(st, v), sid))
+
+
 def defkey(eng, st, x):
     """default key extractor, from the class docstring: the key attribute of a keyed spec-class item,
     else the (hashable) item itself; unhashable -> TypeError.   -> (key term, raises term)"""
     sid = STR.sid("__spec_class__")
     from pyvc.symex import clsattr
     iv = z3.If(is_ref(x), z3.Select(st.get("idict", a_of(x)), sid), ABSENT)
-    meta = z3.If(is_absent(iv), clsattr(eng.type_of(st, x), sid), iv)
+    meta = z3.If(is_absent(iv), cls_lookup(eng, st, x, sid), iv)
     has_meta = z3.And(z3.Not(is_absent(meta)), eng.truthy(st, meta))
     mk = meta_key(eng, st, meta)
     keyed = z3.And(has_meta, z3.Not(is_absent(mk)), eng.truthy(st, mk))
     broken = z3.And(has_meta, is_absent(mk))       # a metadata object without a `key` attribute
     kname = s_of(mk)
     kv = z3.If(is_ref(x), z3.Select(st.get("idict", a_of(x)), kname), ABSENT)
-    kval = z3.If(is_absent(kv), clsattr(eng.type_of(st, x), kname), kv)
+    kval = z3.If(is_absent(kv), cls_lookup(eng, st, x, kname), kv)
     eng.known.update(("AttributeError", "TypeError"))
     return (z3.If(keyed, kval, x),
             z3.If(broken, True, z3.If(keyed, is_absent(kval), z3.Not(hashable(x)))),
@@ -89,7 +95,7 @@ def meta_key(eng, st, meta):
     from pyvc.symex import clsattr
     sid = STR.sid("key")
     iv = z3.If(is_ref(meta), z3.Select(st.get("idict", a_of(meta)), sid), ABSENT)
-    return z3.If(is_absent(iv), clsattr(eng.type_of(st, meta), sid), iv)
+    return z3.If(is_absent(iv), cls_lookup(eng, st, meta, sid), iv)
 
 
 @register
